@@ -34,6 +34,7 @@ mod c12live;
 mod c13;
 mod c14live;
 mod c14qt;
+mod gen_settings_keys;
 mod gen_wizard;
 mod c15;
 mod c16;
